@@ -36,8 +36,9 @@ from .C14ssa import _bad, _nleaves, _nctrl, leaf_ids
 
 _prog = None
 P = 21888242871839275222246405745257275088548364400416034343698204186575808495617
-KINDS = ['B=A', 'B=1', 'B=B+1', 'C=B', 'C=1', 'C=C+B', 'A=B', 'assertB', 'B[0]=A', 'C=B[0]', 's===B', 'C=g(B)']
-SMALL = ['B=A', 'C=B', 'C=C+B', 'B[0]=A', 'C=B[0]', 'C=g(B)']
+KINDS = ['B=A', 'B=1', 'B=B+1', 'C=B', 'C=1', 'C=C+B', 'A=B', 'assertB', 's===B', 'C=g(B)', 'D[0]=A', 'D[1]=B', 'D[B]=1', 'C=D[0]', 'C=D[B]']
+SMALL = ['B=A', 'C=B', 'D[0]=A', 'D[1]=B', 'D[B]=1', 'C=D[0]']
+PREFIX = ('B=0', 'C=0', 'D[0]=0', 'D[1]=0')
 CONDV = ['A', 'B', 'C']
 UNROLL = 3
 
@@ -75,12 +76,12 @@ def family(tier):
             alpha = KINDS if nl + nc <= 2 else SMALL
             conds = CONDV if nl + nc <= 2 else ['A', 'B']
         else:
-            alpha = KINDS if nl + nc <= 3 else ['B=A', 'B=B+1', 'C=B', 'C=B[0]', 'A=B']
+            alpha = KINDS if nl + nc <= 3 else ['B=A', 'B=B+1', 'C=B', 'D[B]=1', 'C=D[0]']
             conds = CONDV if nl + nc <= 3 else ['A', 'B']
-        full = ('block', (('leaf', False), ('leaf', False)) + tuple(sk[1]) + (('leaf', False),))
+        full = ('block', tuple(('leaf', False) for _ in PREFIX) + tuple(sk[1]) + (('leaf', False),))
         for ks in itertools.product(alpha, repeat=nl):
             for cs in itertools.product(conds, repeat=nc):
-                out.append((full, ('B=0', 'C=0') + ks + ('final',), cs))
+                out.append((full, PREFIX + ks + ('final',), cs))
     _FAM[tier] = out
     return out
 
@@ -122,8 +123,8 @@ def product_obligations(sk, kinds, conds, dt, flagged, slv_timeout=20000):
     def newval(tag):
         fresh[0] += 1
         v = z3.Int('%s_%d' % (tag, fresh[0])); inputs[str(v)] = v; base.append(z3.And(v >= 0, v < P)); return v
-    st1 = {'A': A0, 'B': 0, 'C': 0}
-    st2 = {'A': newval('Aalt') if flagged == 'param' else A0, 'B': 0, 'C': 0}
+    st1 = {'A': A0, 'B': 0, 'C': 0, 'D': [0, 0]}
+    st2 = {'A': newval('Aalt') if flagged == 'param' else A0, 'B': 0, 'C': 0, 'D': [0, 0]}
     obls = []
     slv = z3.Solver(); slv.set('timeout', slv_timeout)
     slv.add(*base)
@@ -137,7 +138,29 @@ def product_obligations(sk, kinds, conds, dt, flagged, slv_timeout=20000):
         def assign(v, e1, e2):
             s1[v] = e1
             s2[v] = newval('repl%d' % i) if flagged == i else e2
-        if k == 'B=0': assign('B', 0, 0)
+        def inb(x):          # executions that index the two-element array out of bounds are outside the model
+            v = fval(x); c = z3.And(v >= 0, v <= 1) if is_sym(v) else (0 <= v <= 1)
+            if c is False: raise Stop()
+            if c is not True: pc.append(c)
+        def awrite(idx1, idx2, e1, e2):
+            if flagged == i: e2 = newval('repl%d' % i)
+            for st, ix, e in ((s1, idx1, e1), (s2, idx2, e2)):
+                d = st['D']
+                if is_sym(ix): st['D'] = [z3.If(ix == 0, e, d[0]), z3.If(ix == 1, e, d[1])]
+                else: st['D'] = [e if ix == 0 else d[0], e if ix == 1 else d[1]]
+        def aread(st, ix):
+            d = st['D']
+            return z3.If(ix == 0, d[0], d[1]) if is_sym(ix) else d[ix]
+        if k == 'D[0]=0': awrite(0, 0, 0, 0)
+        elif k == 'D[1]=0': awrite(1, 1, 0, 0)
+        elif k == 'D[0]=A': awrite(0, 0, s1['A'], s2['A'])
+        elif k == 'D[1]=B': awrite(1, 1, s1['B'], s2['B'])
+        elif k == 'D[B]=1':
+            inb(s1['B']); inb(s2['B']); awrite(s1['B'], s2['B'], 1, 1)
+        elif k == 'C=D[0]': assign('C', aread(s1, 0), aread(s2, 0))
+        elif k == 'C=D[B]':
+            inb(s1['B']); inb(s2['B']); assign('C', aread(s1, s1['B']), aread(s2, s2['B']))
+        elif k == 'B=0': assign('B', 0, 0)
         elif k == 'C=0': assign('C', 0, 0)
         elif k == 'B=A': assign('B', s1['A'], s2['A'])
         elif k == 'B=1': assign('B', 1, 1)
@@ -146,8 +169,6 @@ def product_obligations(sk, kinds, conds, dt, flagged, slv_timeout=20000):
         elif k == 'C=1': assign('C', 1, 1)
         elif k == 'C=C+B': assign('C', fadd(s1['C'], s1['B']), fadd(s2['C'], s2['B']))
         elif k == 'A=B': assign('A', s1['B'], s2['B'])
-        elif k == 'B[0]=A': assign('B', s1['A'], s2['A'])           # B used as a one-element array
-        elif k == 'C=B[0]': assign('C', s1['B'], s2['B'])
         elif k == 'C=g(B)': assign('C', fadd(s1['B'], 1), fadd(s2['B'], 1))      # g(x) = x + 1 in the generated source
         elif k == 's===B':
             obls.append((pc, eqv(s1['B'], s2['B']), 'the constraint on the output signal at statement %d is the same' % i))
@@ -169,7 +190,10 @@ def product_obligations(sk, kinds, conds, dt, flagged, slv_timeout=20000):
         s, rest = items[0], items[1:]
         k = s[0]
         if k == 'leaf':
-            leaf(s[1], kinds[s[1]], pc, s1, s2)
+            pc = list(pc); npc = len(pc)
+            try: leaf(s[1], kinds[s[1]], pc, s1, s2)
+            except Stop: return
+            if len(pc) > npc and not feasible(z3.And(*pc)): return
             return run(rest, pc, s1, s2, cont)
         if k == 'block': return run(list(s[1]) + list(rest), pc, s1, s2, cont)
         v = conds[s[1]]
@@ -181,7 +205,7 @@ def product_obligations(sk, kinds, conds, dt, flagged, slv_timeout=20000):
             same = c1z == c2z
             for val, fn in ((True, on_true), (False, on_false)):
                 pcn = pc + [same, c1z if val else z3.Not(c1z)]
-                if feasible(z3.And(*pcn)): fn(pcn, dict(s1), dict(s2))
+                if feasible(z3.And(*pcn)): fn(pcn, {k_: (list(v_) if isinstance(v_, list) else v_) for k_, v_ in s1.items()}, {k_: (list(v_) if isinstance(v_, list) else v_) for k_, v_ in s2.items()})
         if k == 'if':
             branch(pc, s1, s2, lambda p, a, b: run([s[2]] + list(rest), p, a, b, cont), lambda p, a, b: run(rest, p, a, b, cont))
         elif k == 'ifelse':
@@ -200,7 +224,7 @@ def product_obligations(sk, kinds, conds, dt, flagged, slv_timeout=20000):
 
 def concrete_run(sk, kinds, conds, dt, flagged, A0, alt):
     """concrete interpreter (python ints) -> effect trace; `alt` supplies replacement values (callable tag -> int) or None for the original run"""
-    st = {'A': A0, 'B': 0, 'C': 0}
+    st = {'A': A0, 'B': 0, 'C': 0, 'D': [0, 0]}
     if flagged == 'param' and alt: st['A'] = alt('Aalt')
     trace = []
 
@@ -211,7 +235,17 @@ def concrete_run(sk, kinds, conds, dt, flagged, A0, alt):
             if kk == 'assertB': trace.append(('assert', i, st['B'] != 0)); return
             if kk == 'final': trace.append(('final', i, st['C'])); return
             if kk == 's===B': trace.append(('constraint', i, st['B'])); return
-            tgt, val = {'B[0]=A': ('B', st['A']), 'C=B[0]': ('C', st['B']), 'C=g(B)': ('C', (st['B'] + 1) % P), 'B=0': ('B', 0), 'C=0': ('C', 0), 'B=A': ('B', st['A']), 'B=1': ('B', 1), 'B=B+1': ('B', (st['B'] + 1) % P), 'C=B': ('C', st['B']), 'C=1': ('C', 1),
+            if kk.startswith('D['):
+                ix = {'D[0]': 0, 'D[1]': 1, 'D[B]': fval(st['B'])}[kk[:4]]
+                val = {'D[0]=0': 0, 'D[1]=0': 0, 'D[0]=A': st['A'], 'D[1]=B': st['B'], 'D[B]=1': 1}[kk]
+                if alt and flagged == i: val = alt('repl%d' % i)
+                if ix not in (0, 1): trace.append(('out-of-bounds', i, ix)); raise Stop()
+                st['D'][ix] = val; return
+            if kk in ('C=D[0]', 'C=D[B]'):
+                ix = 0 if kk == 'C=D[0]' else fval(st['B'])
+                if ix not in (0, 1): trace.append(('out-of-bounds', i, ix)); raise Stop()
+                st['C'] = alt('repl%d' % i) if (alt and flagged == i) else st['D'][ix]; return
+            tgt, val = {'C=g(B)': ('C', (st['B'] + 1) % P), 'B=0': ('B', 0), 'C=0': ('C', 0), 'B=A': ('B', st['A']), 'B=1': ('B', 1), 'B=B+1': ('B', (st['B'] + 1) % P), 'C=B': ('C', st['B']), 'C=1': ('C', 1),
                         'C=C+B': ('C', (st['C'] + st['B']) % P), 'A=B': ('A', st['B'])}[kk]
             st[tgt] = alt('repl%d' % i) if (alt and flagged == i) else val
         elif k == 'block':
@@ -230,7 +264,8 @@ def concrete_run(sk, kinds, conds, dt, flagged, A0, alt):
                     d = dec(); trace.append(('branch', s[1], d))
                     if not d or n > 50: break
                     run(s[2]); n += 1
-    run(sk)
+    try: run(sk)
+    except Stop: pass
     return trace
 
 
@@ -256,7 +291,7 @@ def run_task(task):
     base = [shape >= task['lo'], shape < task['hi']]
     R = lambda p, f: h.stub_res.append((re.compile(p), f))
     LIFT = r'(?:intermediate_representation::lifting::|ir::lifting::|lifting::)?TryLift<\(\)>>::try_lift'
-    V = {'A': lambda: ir.name('A'), 'B': lambda: ir.name('B'), 'C': lambda: ir.name('C'), 's': lambda: ir.name('s')}
+    V = {'A': lambda: ir.name('A'), 'B': lambda: ir.name('B'), 'C': lambda: ir.name('C'), 'D': lambda: ir.name('D'), 's': lambda: ir.name('s')}
     local = lambda: ir.vtype('local')
 
     def mk_stmt(kind, i):
@@ -273,8 +308,12 @@ def run_task(task):
         if kind == 'C=C+B': return asg('C', ir.infix('Add', var('C'), var('B'), meta=m()))
         if kind == 'A=B': return asg('A', var('B'))
         if kind == 'assertB': return ir.assert_(var('B'), meta=m())
-        if kind == 'B[0]=A': return asg('B', ir.update(V['B'](), [ir.array_access(ir.number(0, meta=m()))], var('A'), meta=m()))
-        if kind == 'C=B[0]': return asg('C', ir.access(V['B'](), [ir.array_access(ir.number(0, meta=m()))], meta=m()))
+        if kind.startswith('D['):
+            ix = {'D[0]': lambda: ir.number(0, meta=m()), 'D[1]': lambda: ir.number(1, meta=m()), 'D[B]': lambda: var('B')}[kind[:4]]()
+            val = {'D[0]=0': lambda: ir.number(0, meta=m()), 'D[1]=0': lambda: ir.number(0, meta=m()), 'D[0]=A': lambda: var('A'), 'D[1]=B': lambda: var('B'), 'D[B]=1': lambda: ir.number(1, meta=m())}[kind]()
+            return asg('D', ir.update(V['D'](), [ir.array_access(ix)], val, meta=m()))
+        if kind == 'C=D[0]': return asg('C', ir.access(V['D'](), [ir.array_access(ir.number(0, meta=m()))], meta=m()))
+        if kind == 'C=D[B]': return asg('C', ir.access(V['D'](), [ir.array_access(var('B'))], meta=m()))
         if kind == 'C=g(B)': return asg('C', ir.call('g', [var('B')], meta=m()))
         if kind == 's===B': return ir.constraint_eq(var('s'), var('B'), meta=m())
         if kind == 'final':
@@ -336,12 +375,12 @@ def run_task(task):
         blocks = res.f[0]
         decls = Struct('Declarations', [MapV()]); dcell = [decls]
         sigty = lambda: ir.vtype('signal', 'Output')
-        dl = [(V['A'](), local()), (V['B'](), local()), (V['C'](), local())] + ([(V['s'](), sigty())] if dt == 'Template' else [])
-        for nm, ty in dl:
-            d = ex.call_mir(decl_new, [Ref([nm], 0), Ref([ty], 0), SliceV(VecV([]), 0, 0), Ref([some(0)], 0), Ref([ir.range_(0, 0)], 0)])
+        dl = [(V['A'](), local(), []), (V['B'](), local(), []), (V['C'](), local(), []), (V['D'](), local(), [ir.number(2, meta=ir.meta(903, 903))])] + ([(V['s'](), sigty(), [])] if dt == 'Template' else [])
+        for nm, ty, dims in dl:
+            d = ex.call_mir(decl_new, [Ref([nm], 0), Ref([ty], 0), SliceV(VecV(dims), 0, len(dims)), Ref([some(0)], 0), Ref([ir.range_(0, 0)], 0)])
             ex.call_mir(decls_add, [Ref(dcell, 0), Ref([d], 0)])
         stmts0 = ir.get(blocks.items[0], 'stmts')
-        pre = [ir.decl([V['B']()], local(), meta=ir.meta(900, 900)), ir.decl([V['C']()], local(), meta=ir.meta(901, 901))]
+        pre = [ir.decl([V['B']()], local(), meta=ir.meta(900, 900)), ir.decl([V['C']()], local(), meta=ir.meta(901, 901)), ir.decl([V['D']()], local(), dims=[ir.number(2, meta=ir.meta(903, 903))], meta=ir.meta(903, 903))]
         if dt == 'Template': pre.append(ir.decl([V['s']()], sigty(), meta=ir.meta(902, 902)))
         stmts0.items[0:0] = pre
         n = len(blocks.items)
@@ -402,8 +441,8 @@ def run_task(task):
 
 
 # ----------------------------------------------------------------------------- native side: the same program as Circom source
-SRC = {'B=0': 'var B = 0;', 'C=0': 'var C = 0;', 'B=A': 'B = A;', 'B=1': 'B = 1;', 'B=B+1': 'B = B + 1;', 'C=B': 'C = B;', 'C=1': 'C = 1;', 'C=C+B': 'C = C + B;', 'A=B': 'A = B;',
-       'assertB': 'assert(B);', 'B[0]=A': 'B[0] = A;', 'C=B[0]': 'C = B[0];', 's===B': 's === B;', 'C=g(B)': 'C = g(B);'}
+SRC = {'B=0': 'var B = 0;', 'C=0': 'var C = 0;', 'D[0]=0': 'var D[2]; D[0] = 0;', 'D[1]=0': 'D[1] = 0;', 'D[0]=A': 'D[0] = A;', 'D[1]=B': 'D[1] = B;', 'D[B]=1': 'D[B] = 1;', 'C=D[0]': 'C = D[0];', 'C=D[B]': 'C = D[B];', 'B=A': 'B = A;', 'B=1': 'B = 1;', 'B=B+1': 'B = B + 1;', 'C=B': 'C = B;', 'C=1': 'C = 1;', 'C=C+B': 'C = C + B;', 'A=B': 'A = B;',
+       'assertB': 'assert(B);', 's===B': 's === B;', 'C=g(B)': 'C = g(B);'}
 CODE = {'unused-value': 'CS0006', 'unused-param': 'CS0007', 'no-side-effect': 'CS0008', 'param-no-side-effect': 'CS0008'}
 
 
@@ -541,10 +580,10 @@ def main(tier, replay=None):
     if rep.nonrepro and not rep.violations:
         rep.inconclusive.append('%d counterexamples did not reproduce natively, e.g. %s' % (len(rep.nonrepro), json.dumps(rep.nonrepro[0], default=str)[:400]))
     pr = prog()
-    rep.bounds = {'programs': '%d structured programs (if / if-else / while, braced non-empty bodies, <= %d free statements between `B = 0; C = 0;` and the final `s <== C` / `return C`), as template and as function; leaf alphabet %s; conditions v < 3 for v in A, B, C' % (len(fam), 3 if tier == 'quick' else 4, KINDS),
+    rep.bounds = {'programs': '%d structured programs (if / if-else / while, braced non-empty bodies, <= %d free statements between `B = 0; C = 0; D[0] = 0; D[1] = 0;` and the final `s <== C` / `return C`), as template and as function; leaf alphabet %s; conditions v < 3 for v in A, B, C' % (len(fam), 3 if tier == 'quick' else 4, KINDS),
                   'executions': 'all parameter values in the field, all replacement values (fresh per dynamic instance), every path with <= %d iterations per loop' % UNROLL}
     rep.stubs = ['leaf lifting (ast -> ir statement / condition) returns harness-built IR statements', 'Instant::now / elapsed (the time box never fires: C20)', 'build_* report constructors of the pass (argument captured)']
-    rep.assumptions = ['reference semantics: field arithmetic modulo the BN254 prime, `<` on signed representatives, `B[0]` on a one-element array, g(x) = x + 1', 'the effects compared are those listed by the property: value assigned to the output signal / constraint operand, assertion outcome, return value, branch decisions',
+    rep.assumptions = ['reference semantics: field arithmetic modulo the BN254 prime, `<` on signed representatives, D a two-element array (executions indexing it out of bounds are outside the model), g(x) = x + 1', 'the effects compared are those listed by the property: value assigned to the output signal / constraint operand, assertion outcome, return value, branch decisions',
                        'HashMap / HashSet modelled as association lists (iteration order = insertion order)', 'source hash ' + pr.hashes['analysis'] + '/' + pr.hashes['structure']]
     rep.outside = ['components, input signals, intermediate signals, tuples, logs, inline arrays, multi-dimensional arrays, array sizes depending on variables', 'programs with more statements; executions with more loop iterations',
                    'claims about signals (CS0006 unused signal, unconstrained signal): not the subject of C09', 'real leaf lifting (the native validation compares claims on generated source for fixed programs)']
